@@ -753,7 +753,6 @@ package astisub
 //@   requires !i.failed
 //@   ensures [C18-fault-reported] i.failed ==> err != nil
 //@   loop 4: invariant !i.failed
-//@   loop 5: invariant !i.failed
 //@   loop 6: invariant l != nil && s != nil && !i.failed
 //@   loop 7: invariant l != nil && s != nil && !i.failed
 //@ end
